@@ -115,6 +115,18 @@ def generate(seed, tier="quick", label="mlmc"):
         sc["gate_level"] = r.randrange(0, 4)
         sc["gate_k"] = r.choice([1, 2, 3, 5, 8])
         sc["gate_j"] = r.randrange(0, 8)
+    # a LONG history of passes: the allocation asks, pass after pass, for just over 1% more of one level than it holds
+    # (what a slowly growing variance estimate does); after creep_passes calls it is content with what there is. The run
+    # may only stop then - however many passes that takes (own stream: the other draws are unchanged)
+    rc = sub_rng(seed, "mlmc.creep")
+    if (variant == "adaptive" and not sc.get("misconfigured") and not sc["controls"] and not sc.get("alloc_mode")
+            and not sc.get("big_level") and rc.random() < 0.05):
+        sc["alloc_mode"] = "creep"
+        sc["criteria"] = "always"
+        sc["warm_rmse_factor"] = None
+        sc["gate_level"] = rc.randrange(0, 4)
+        sc["creep_passes"] = rc.choice([30, 70, 110, 150, 250])
+        sc["n0"] = min(sc["n0"], 200)
     # history of READS of a results object: the order in which the caller looks at its figures
     order = list(RESULT_FIELDS)
     if r.random() < 0.5:
@@ -216,12 +228,26 @@ def run(wd, sc, cap=60000):
             wd.faults["alloc.boundary_targeted"] += 1
         return out
 
+    def scripted_creep_allocation(ns):
+        counts = [sum(1 for e in wd.stub_ledger[phase["led0"]:] if e["level"] == lvl) for lvl in range(len(ns))]
+        out = np.array(counts, dtype=np.asarray(ns).dtype)
+        lvl = sc["gate_level"] % len(ns)
+        state["creep_calls"] = state.get("creep_calls", 0) + 1
+        if state["creep_calls"] <= sc["creep_passes"]:
+            out[lvl] = counts[lvl] + counts[lvl] // 100 + 1
+            if state["creep_calls"] == sc["creep_passes"]:
+                wd.probes["mlmc.long_creeping_history"] += 1
+                wd.faults["alloc.creeping"] += 1
+        return out
+
     def rec_alloc(rmse, vl, cl):
         ns = compute_mc_paths_giles(rmse, vl, cl)
         if phase["warm"]:
             return ns
         if sc.get("alloc_mode") == "gate_boundary":
             ns = scripted_gate_allocation(ns)
+        elif sc.get("alloc_mode") == "creep":
+            ns = scripted_creep_allocation(ns)
         wd.control.append(("alloc", float(rmse), np.array(vl, dtype=float).tolist(), np.array(cl, dtype=float).tolist(),
                            np.array(ns).tolist()))
         return ns
